@@ -9,6 +9,10 @@ import json, os, re, shutil, subprocess, sys, time, glob
 
 prop, m = sys.argv[1], sys.argv[2]
 tier = sys.argv[3] if len(sys.argv) > 3 else "quick"
+# optional 4th argument: comma-separated other properties whose checks are run as well when the property's own
+# check does not report the change (a change can break a property through a history that lies in another
+# property's quantifier)
+others = [x for x in (sys.argv[4].split(",") if len(sys.argv) > 4 else []) if x]
 src = f"/tmp/seeded/{prop}/{m}"
 if not os.path.isdir(src):
     src = f"/verif/seeded/{prop}-{m}"
@@ -81,6 +85,14 @@ try:
     meta["check"] = {"cmd": f"VERIF_REPO=<scratch worktree with the change> ./vcheck {prop} {tier}", "exit": rc, "violation_keys": keys, "wall_s": round(time.time() - t0)}
     meta["detected"] = rc == 1 and bool(keys)
     note("check against the change", rc, out)
+    if not meta["detected"]:
+        for op in others:
+            t0 = time.time()
+            rc2, out2 = sh(f"/verif/vcheck {op} {tier}", cwd="/verif", e=e2, timeout=7200)
+            keys2 = re.findall(r"^\s+key=(\S+)", out2, re.M)
+            meta.setdefault("other_checks", {})[op] = {"exit": rc2, "violation_keys": keys2, "wall_s": round(time.time() - t0)}
+            note(f"check of {op} against the change", rc2, out2)
+        meta["detected_by_other_property"] = [op for op, v in meta.get("other_checks", {}).items() if v["exit"] == 1 and v["violation_keys"]]
 finally:
     outd = f"/verif/seeded/{prop}-{m}"
     os.makedirs(outd, exist_ok=True)
@@ -98,4 +110,4 @@ finally:
     shutil.rmtree(f"/verif/.build/gen/lab{tag}", ignore_errors=True)
     shutil.rmtree(f"/verif/.build/gen/thread{tag}", ignore_errors=True)
     shutil.rmtree(f"/verif/.build/gen/plain{tag}", ignore_errors=True)
-    print(json.dumps({k: meta.get(k) for k in ("property", "mutation", "confirmed", "detected", "check", "suite_extra_failures", "error")}))
+    print(json.dumps({k: meta.get(k) for k in ("property", "mutation", "confirmed", "detected", "detected_by_other_property", "check", "suite_extra_failures", "error")}))
